@@ -48,7 +48,6 @@ ASSUMPTIONS = [
     'lists inside hand-written packets: byte-level units unroll them for lengths 0..2; icons, actions and properties are in '
     'addition proved for ANY length by loop contracts (c05_lists.py: writer output unfolded element by element in front of '
     'the reader); records / world names are PrefixedArray fields (any-length structure: C02.PrefixedArray.any-length)',
-    'map offsets range over 0..127 (the writer emits them unsigned, the reader takes them signed)',
 ]
 TABLES = {
     ('handshake', 'serverbound'): serverbound.handshake.get_packets,
@@ -211,7 +210,7 @@ def fill_map(I, pkt, i):
     if E.fork(2, 'has-pixels'):
         v['width'] = E.new_int('width', 1, 255)
         v['height'] = E.new_int('height', 0, 255)
-        v['offset'] = (E.new_int('off_x', 0, 127), E.new_int('off_z', 0, 127))
+        v['offset'] = (E.new_int('off_x', -128, 127), E.new_int('off_z', -128, 127))
         v['pixels'] = SBytes([E.new_blob('pixels', hi=65535)])
     else:
         v['width'], v['height'], v['offset'], v['pixels'] = 0, 0, None, None
@@ -503,7 +502,7 @@ def conc_handwritten(cls, ctx, rng, variant):
         v['icons'] = [MapPacket.MapIcon(300 if new else 15, 200 if new else 15, (-128, 127), 'n' if later(364) else None),
                       MapPacket.MapIcon(0, 0, (0, 0), None)][:2 if variant else 0]
         if variant:
-            v.update(height=3, offset=(127, 0), pixels=bytes(range(6)))
+            v.update(height=3, offset=(127, -128), pixels=bytes(range(6)))
         else:
             v.update(height=0, offset=None, pixels=None)
     elif cls is PlayerListItemPacket:
